@@ -177,6 +177,9 @@ impl EditState {
     pub fn delete_row(&mut self) -> EngineResult<()> {
         let y = self.get_caret().get_position().y;
         let layer = self.get_current_layer()?;
+        if y < 0 || y >= self.get_buffer().layers[layer].get_height() {
+            return Err(anyhow::anyhow!("Row {y} is outside of the layer"));
+        }
         let op = super::undo_operations::DeleteRow::new(layer, y);
         self.push_undo_action(Box::new(op))
     }
@@ -184,6 +187,9 @@ impl EditState {
     pub fn insert_row(&mut self) -> EngineResult<()> {
         let y = self.get_caret().get_position().y;
         let layer = self.get_current_layer()?;
+        if y < 0 || y > self.get_buffer().layers[layer].get_height() {
+            return Err(anyhow::anyhow!("Row {y} is outside of the layer"));
+        }
         let op = super::undo_operations::InsertRow::new(layer, y);
         self.push_undo_action(Box::new(op))
     }
@@ -191,6 +197,9 @@ impl EditState {
     pub fn insert_column(&mut self) -> EngineResult<()> {
         let x = self.get_caret().get_position().x;
         let layer = self.get_current_layer()?;
+        if x < 0 || x > self.get_buffer().layers[layer].get_width() {
+            return Err(anyhow::anyhow!("Column {x} is outside of the layer"));
+        }
         let op = super::undo_operations::InsertColumn::new(layer, x);
         self.push_undo_action(Box::new(op))
     }
@@ -198,6 +207,9 @@ impl EditState {
     pub fn delete_column(&mut self) -> EngineResult<()> {
         let x = self.get_caret().get_position().x;
         let layer = self.get_current_layer()?;
+        if x < 0 || x >= self.get_buffer().layers[layer].get_width() {
+            return Err(anyhow::anyhow!("Column {x} is outside of the layer"));
+        }
         let op = super::undo_operations::DeleteColumn::new(layer, x);
         self.push_undo_action(Box::new(op))
     }
